@@ -404,12 +404,18 @@ func callActuals(c ssa.CallInstruction) []*Term {
 	return out
 }
 
+// substSet imports a callee summary into the caller: facts about callee-local values (phis, allocs,
+// loop state) mean nothing outside one invocation — and two invocations would share their names —
+// so only facts rooted in the callee's parameters are kept, with the actuals substituted.
 func substSet(s FactSet, actuals []*Term) FactSet {
 	if s.Bottom {
 		return s
 	}
 	n := emptySet()
 	for _, f := range s.M {
+		if !f.T.rootedInParams() {
+			continue
+		}
 		n.add(Fact{f.T.subst(actuals), f.Pol})
 	}
 	return n
